@@ -285,6 +285,13 @@ def cases(rng, tier, feats, drv_ok):
             V('steps+1', m(lambda p: p.__setitem__('lns', p['lns'] + 1)))
             V('segments-1', m(lambda p: p['segs'].pop())); V('layout+1', m(lambda p: p.__setitem__('layout', p['layout'] + 1)))
             V('rc-min=max', m(lambda p: (p.__setitem__('rmin', 5), p.__setitem__('rmax', 5))))
+            for k, (a, b) in {'rc-min>max': (9, 5), 'rc-max=65535': (0, 65535), 'rc-max=65536': (0, 65536), 'rc-min=P-1': (P - 1, 65535)}.items():
+                V(k, m(lambda p, a=a, b=b: (p.__setitem__('rmin', a), p.__setitem__('rmax', b))))     # (coverage: the dynamic layout's range-check bound was never hit)
+            # the three unit budgets (memory / range-check / diluted units = trace / ratio): shrink each budget by a growing factor until the
+            # builtins no longer fit (coverage: the diluted-units inequality was never violated)
+            for un in ('memory_units_row_ratio', 'range_check_units_row_ratio', 'diluted_units_row_ratio'):
+                for f in (4, 16, 256, 1 << 12):
+                    if pi['dyn'][ix[un]] * f < 1 << 64: V(f'dp:{un}x{f}', D(un, pi['dyn'][ix[un]] * f))
             V('dynamic-params-missing', m(lambda p: p.__setitem__('dyn', None)))
             # every dynamic parameter: +1, -1, x2, /2, 0, +2^32, 2^64-1 (quick: a seeded third of the parameters, every row ratio / switch always)
             for name in names:
